@@ -102,10 +102,11 @@ class SObj:
 class SIter:
     """Indexable iterable: `length` (int or z3 Int) and item(k)."""
 
-    def __init__(self, length, item, desc="iter"):
+    def __init__(self, length, item, desc="iter", contains=None):
         self.length = length
         self.item = item
         self.desc = desc
+        self.contains = contains  # optional membership predicate (ranges)
 
 
 class SIterator:
